@@ -121,6 +121,52 @@ def two_broker_items(tier):
     return out
 
 
+def refit(case):
+    """The account's fee model is replaced AFTER portfolios exist (broker.fee_model = other model - the only way to
+    change costs on a prepared session): from then on every fill, in old and in new portfolios, is charged by the
+    model that is configured when it happens."""
+    fx, fy = tuple(case['fee_before']), tuple(case['fee_after'])
+    m = bm.BrokerMachine(fx)
+    fails, n = [], 0
+    for ev in INIT:
+        m.step(tuple(ev), check=False)
+    a, q, j = case['asset'], case['qty'], case['instant']
+    if case['fill_before']:
+        m.step(('submit', '1', a, q), check=False)
+        f = m.step(('tick', j), check=True)
+        n += len(m.step_txns)
+        fails += [g for g in f if g['clause'].startswith('C05.')]
+    m.broker.fee_model = bm.make_fee(fy)
+    m.fee = fy
+    plan = [('submit', '1', a, q), ('tick', j), ('create', '3'), ('pf_sub', '3', '200000'), ('submit', '3', a, -q), ('tick', j)]
+    for ev in plan:
+        f = m.step(ev, check=True)
+        if ev[0] == 'tick':
+            n += len(m.step_txns)
+        fails += [g for g in f if g['clause'].startswith('C05.')]
+    want = 2 + (1 if case['fill_before'] else 0)
+    if n != want:
+        fails.append(bm.fail('C05.no_fill_observed', {'fills': n, 'expected': want}))
+    fails = [dict(g, case=dict(case, kind='refit')) for g in fails]
+    return {'viols': fails[:4], 'execs': 1, 'evals': n, 'nontrivial': True, 'outcome': ('refit', repr(sorted(case.items(), key=str)))}
+
+
+def refit_items(tier):
+    fs = [('zero',), ('pct', '0.001', '0.005'), ('pct', '0.0025', '0')]
+    out = []
+    for fx in fs:
+        for fy in fs:
+            if fx == fy:
+                continue
+            for a in ('A', 'Bq'):
+                for q in (7, -100):
+                    for before in (False, True):
+                        for j in ((3,) if tier == 'quick' else OPEN_INSTANTS):
+                            out.append({'fee_before': list(fx), 'fee_after': list(fy), 'asset': a, 'qty': q, 'instant': j,
+                                        'fill_before': before})
+    return out
+
+
 def other_zone(case):
     """the broker is driven with tz-aware timestamps of a non-UTC zone whose wall-clock time lies inside the
     exchange's hours (the exchange reads wall-clock time): the fill must be stamped with exactly that instant"""
@@ -193,6 +239,7 @@ def run(tier, res, is_known):
     product(point, its, res, is_known, label='fills', sample_every=997)
     product(two_brokers, two_broker_items(tier), res, is_known, label='two live brokers, alternating')
     product(other_zone, zone_items(), res, is_known, label='update times in other time zones')
+    product(refit, refit_items(tier), res, is_known, label='fee model replaced after portfolios exist', chunk=8)
 
 
 def replay(case):
@@ -201,5 +248,7 @@ def replay(case):
     if case.get('kind') == 'two_brokers':
         c = {k: v for k, v in case.items() if k != 'kind'}
         return two_brokers(c)['viols']
+    if case.get('kind') == 'refit':
+        return refit({k: v for k, v in case.items() if k != 'kind'})['viols']
     _, fails, _ = evaluate(case)
     return [f for f in fails if f['clause'].startswith('C05.')]
